@@ -1,4 +1,37 @@
-From TxV Require Import Core.Base Model.Registry.
+From TxV Require Import Core.Base Gen.SrcRegistry Model.Registry.
+
+(* ================================================================ the facts read from textx/registration.py
+   (Gen/SrcRegistry.v).  When one of them changes this lemma stops compiling and C26_refines is
+   no longer established. *)
+Lemma facts_of_source :
+  (lang_lookup_lowered, gen_lookup_lang_lowered, gen_lookup_target_lowered, reg_lang_check_lowered, reg_lang_store_lowered,
+   reg_gen_lang_lowered, reg_gen_check_lowered, reg_gen_store_lowered, mm_key_lowered)
+  = (true, true, true, true, true, true, true, true, true) /\
+  (clear_langs_forgets_table, clear_langs_drops_cache, clear_gens_forgets_table, patternless_skipped) = (true, true, true, true) /\
+  register_loads_then_refuses_then_inserts = true.
+Proof. repeat split. Qed.
+
+Lemma f_lang_lookup : lang_lookup_lowered = true. Proof. reflexivity. Qed.
+Lemma f_gen_lookup_lang : gen_lookup_lang_lowered = true. Proof. reflexivity. Qed.
+Lemma f_gen_lookup_target : gen_lookup_target_lowered = true. Proof. reflexivity. Qed.
+Lemma f_reg_lang_check : reg_lang_check_lowered = true. Proof. reflexivity. Qed.
+Lemma f_reg_lang_store : reg_lang_store_lowered = true. Proof. reflexivity. Qed.
+Lemma f_reg_gen_lang : reg_gen_lang_lowered = true. Proof. reflexivity. Qed.
+Lemma f_reg_gen_check : reg_gen_check_lowered = true. Proof. reflexivity. Qed.
+Lemma f_reg_gen_store : reg_gen_store_lowered = true. Proof. reflexivity. Qed.
+Lemma f_mm_key : mm_key_lowered = true. Proof. reflexivity. Qed.
+Lemma f_clear_langs : clear_langs_forgets_table = true. Proof. reflexivity. Qed.
+Lemma f_clear_cache : clear_langs_drops_cache = true. Proof. reflexivity. Qed.
+Lemma f_clear_gens : clear_gens_forgets_table = true. Proof. reflexivity. Qed.
+Lemma f_patternless : patternless_skipped = true. Proof. reflexivity. Qed.
+
+Lemma lw_true s : lw true s = lower s. Proof. reflexivity. Qed.
+
+Lemma update_absent {A} k (v : A) l : lookup k l = None -> update k v l = l ++ [(k, v)].
+Proof.
+  induction l as [|[k0 v0] l IH]; simpl; [reflexivity|].
+  destruct (str_eqb k k0); [discriminate|]. intro H. rewrite (IH H). reflexivity.
+Qed.
 
 Section Proofs.
   Variable fnm : list N -> list N -> bool.
@@ -10,9 +43,110 @@ Section Proofs.
   Notation run := (run fnm ep_langs ep_gens).
   Notation srun := (srun fnm ep_langs ep_gens).
 
-  Lemma step_refines s o : sstep (abs s) o = (abs (fst (step s o)), snd (step s o)).
+  Lemma lower_idem s : lower (lower s) = lower s.
   Proof.
-    destruct s as [l g c n]. destruct o; unfold abs, Registry.abs; cbn -[reg_lang reg_gen mm_for_lang mms_for langs_for_file gen_description load_langs load_gens].
+    induction s as [|c s IH]; simpl; [reflexivity|]. f_equal; [|exact IH].
+    unfold lower_char. destruct (N.leb 65 c && N.leb c 90)%bool eqn:E; [|rewrite E; reflexivity].
+    apply andb_true_iff in E as [E1 E2]. apply N.leb_le in E1, E2.
+    replace (N.leb (c + 32) 90) with false by (symmetry; apply N.leb_gt; lia).
+    rewrite andb_false_r. reflexivity.
+  Qed.
+
+  (* ---------------- under the facts, the functions of the source are the canonical ones *)
+  Lemma ireg_lang_eq d t : ireg_lang d t = reg_lang d t.
+  Proof.
+    unfold ireg_lang, reg_lang. rewrite f_reg_lang_check, f_reg_lang_store. cbn [lw].
+    destruct (lookup (lower (lname d)) t) eqn:E; [reflexivity|]. rewrite (update_absent _ _ _ E). reflexivity.
+  Qed.
+
+  Lemma ireg_gen_eq d t : ireg_gen d t = reg_gen d t.
+  Proof.
+    unfold ireg_gen, reg_gen. rewrite f_reg_gen_lang, f_reg_gen_check, f_reg_gen_store. cbn [lw].
+    destruct (lookup (lower (glang d)) t) as [lg|]; [|reflexivity].
+    destruct (lookup (lower (gtarget d)) lg) eqn:E; [reflexivity|]. rewrite (update_absent _ _ _ E). reflexivity.
+  Qed.
+
+  Lemma ilang_description_eq n t : ilang_description n t = lookup (lower n) t.
+  Proof. unfold ilang_description. rewrite f_lang_lookup. reflexivity. Qed.
+
+  Lemma igen_description_eq l tg a t : igen_description l tg a t = gen_description l tg a t.
+  Proof. unfold igen_description, gen_description. rewrite f_gen_lookup_lang, f_gen_lookup_target. reflexivity. Qed.
+
+  Lemma ilangs_for_file_eq f t : ilangs_for_file fnm f t = Some (langs_for_file fnm f t).
+  Proof. unfold ilangs_for_file. rewrite f_patternless. reflexivity. Qed.
+
+  Lemma imm_for_lang_eq n kw t c k : imm_for_lang n kw t c k = mm_for_lang n kw t c k.
+  Proof.
+    unfold imm_for_lang, mm_for_lang. rewrite f_mm_key. cbn [lw]. rewrite ilang_description_eq, lower_idem. reflexivity.
+  Qed.
+
+  Lemma imms_for_eq : forall ds t c k acc, imms_for ds t c k acc = mms_for ds t c k acc.
+  Proof.
+    induction ds as [|d ds IH]; intros t c k acc; cbn [imms_for mms_for]; [reflexivity|].
+    rewrite imm_for_lang_eq. destruct (mm_for_lang (lname d) false t c k) as [[[m|] c'] k']; [apply IH | reflexivity].
+  Qed.
+
+  (* the implementation machine in canonical form *)
+  Definition cstep (s : state) (o : op) : state * result :=
+    match o with
+    | RegLang d => let t := force_l ep_langs s in
+                   match reg_lang d t with
+                   | Some t' => (with_l s t', RUnit)
+                   | None => (with_l s t, RErr)
+                   end
+    | ClearLangs => ({| langs := None; gens := gens s; cache := []; serial := serial s |}, RUnit)
+    | RegGen d => let t := force_g ep_gens s in
+                  match reg_gen d t with
+                  | Some t' => (with_g s t', RUnit)
+                  | None => (with_g s t, RErr)
+                  end
+    | ClearGens => ({| langs := langs s; gens := None; cache := cache s; serial := serial s |}, RUnit)
+    | LangDescription n => let t := force_l ep_langs s in
+                           (with_l s t, match lookup (lower n) t with Some d => RLang d | None => RErr end)
+    | GenDescription l tg anyp => let t := force_g ep_gens s in
+                           (with_g s t, match gen_description l tg anyp t with Some d => RGen d | None => RErr end)
+    | LangsForFile f => let t := force_l ep_langs s in (with_l s t, RLangs (langs_for_file fnm f t))
+    | LangForFile f => let t := force_l ep_langs s in
+                       (with_l s t, match langs_for_file fnm f t with [d] => RLang d | _ => RErr end)
+    | MMForLang n kw =>
+        match lookup (lower n) (cache s), kw with
+        | Some m, false => (s, RMM m)
+        | _, _ => let t := force_l ep_langs s in
+                  match mm_for_lang n kw t (cache s) (serial s) with
+                  | (Some m, c', n') => (with_c (with_l s t) c' n', RMM m)
+                  | (None, c', n') => (with_c (with_l s t) c' n', RErr)
+                  end
+        end
+    | MMForFile f kw =>
+        let t := force_l ep_langs s in
+        match langs_for_file fnm f t with
+        | [d] => match mm_for_lang (lname d) kw t (cache s) (serial s) with
+                 | (Some m, c', n') => (with_c (with_l s t) c' n', RMM m)
+                 | (None, c', n') => (with_c (with_l s t) c' n', RErr)
+                 end
+        | _ => (with_l s t, RErr)
+        end
+    | MMsForFile f =>
+        let t := force_l ep_langs s in
+        match mms_for (langs_for_file fnm f t) t (cache s) (serial s) [] with
+        | (Some ms, c', n') => (with_c (with_l s t) c' n', RMMs ms)
+        | (None, c', n') => (with_c (with_l s t) c' n', RErr)
+        end
+    | LangDescs => let t := force_l ep_langs s in (with_l s t, RLangs (map snd t))
+    | GenDescs => let t := force_g ep_gens s in (with_g s t, RGens (flat_map (fun lg => map snd (snd lg)) t))
+    end.
+
+  Lemma step_eq s o : step s o = cstep s o.
+  Proof.
+    destruct o; unfold Registry.step, cstep;
+      rewrite ?ireg_lang_eq, ?ireg_gen_eq, ?ilang_description_eq, ?igen_description_eq, ?ilangs_for_file_eq,
+              ?imm_for_lang_eq, ?imms_for_eq, ?f_clear_langs, ?f_clear_cache, ?f_clear_gens, ?f_mm_key; cbn [lw]; try reflexivity.
+    all: destruct (langs_for_file fnm f _) as [|d [|d' ds]]; rewrite ?imm_for_lang_eq; reflexivity.
+  Qed.
+
+  Lemma cstep_refines s o : sstep (abs s) o = (abs (fst (cstep s o)), snd (cstep s o)).
+  Proof.
+    destruct s as [l g c n]. destruct o; unfold abs, Registry.abs, cstep; cbn -[reg_lang reg_gen mm_for_lang mms_for langs_for_file gen_description load_langs load_gens].
     - (* RegLang *) destruct (reg_lang d _); reflexivity.
     - reflexivity.
     - destruct (reg_gen d _); reflexivity.
@@ -33,6 +167,9 @@ Section Proofs.
     - reflexivity.
   Qed.
 
+  Lemma step_refines s o : sstep (abs s) o = (abs (fst (step s o)), snd (step s o)).
+  Proof. rewrite step_eq. apply cstep_refines. Qed.
+
   Lemma run_refines : forall ops s, run s ops = srun (abs s) ops.
   Proof.
     induction ops as [|o ops IH]; intro s; [reflexivity|].
@@ -44,14 +181,6 @@ Section Proofs.
   Proof. rewrite run_refines. reflexivity. Qed.
 
   (* ---------------- laws of the specification machine *)
-  Lemma lower_idem s : lower (lower s) = lower s.
-  Proof.
-    induction s as [|c s IH]; simpl; [reflexivity|]. f_equal; [|exact IH].
-    unfold lower_char. destruct (N.leb 65 c && N.leb c 90)%bool eqn:E; [|rewrite E; reflexivity].
-    apply andb_true_iff in E as [E1 E2]. apply N.leb_le in E1, E2.
-    replace (N.leb (c + 32) 90) with false by (symmetry; apply N.leb_gt; lia).
-    rewrite andb_false_r. reflexivity.
-  Qed.
 
   Lemma lookup_app_none {A} k (l : list (list N * A)) k' v :
     lookup k l = None -> lookup k (l ++ [(k', v)]) = if str_eqb k k' then Some v else None.
@@ -150,6 +279,11 @@ Section Proofs.
     cbn. destruct (langs_for_file fnm f (slangs s)) as [|d0 [|d1 l]]; cbn; intro H; try reflexivity.
     exfalso. apply H. reflexivity.
   Qed.
+
+  Lemma lang_for_file_exactly_one s f :
+    (forall d, snd (sstep s (LangForFile f)) = RLang d <-> langs_for_file fnm f (slangs s) = [d]) /\
+    (length (langs_for_file fnm f (slangs s)) <> 1 -> snd (sstep s (LangForFile f)) = RErr).
+  Proof. split; [intro d; apply lang_for_file_unique | apply lang_for_file_fails_otherwise]. Qed.
 
   (* 5. metamodel cache *)
   Lemma lookup_update_same {A} k (v : A) l : lookup k (update k v l) = Some v.
